@@ -783,6 +783,7 @@ type astLoop struct {
 	pos, end token.Pos
 	key      string
 	assigned bool
+	owner    *ILLoop
 }
 
 func (e *Engine) astLoops(fn *ssa.Function) []*astLoop {
@@ -861,8 +862,33 @@ func (tr *Trans) bindLoops() {
 		}
 		if best != nil {
 			best.assigned = true
+			best.owner = l
 			l.Key = best.key
 			l.Pos = best.pos
+			continue
+		}
+		// a further inlined copy of a closure's loop (the closure is called at several places): the syntactic
+		// loop is already bound to the first copy, recognised by identical source positions; it shares the key
+		// and with it the loop clauses of the contract
+		for _, al := range loops {
+			if !al.assigned || al.owner == nil || minPos(al.owner) != minPos(l) || ownerFn(al.owner.Head.Owner) != ownerFn(l.Head.Owner) || ownerFn(l.Head.Owner) == tr.fn {
+				continue
+			}
+			all := true
+			for _, p := range ps {
+				if p < al.pos || p > al.end {
+					all = false
+					break
+				}
+			}
+			if all && (best == nil || (al.pos >= best.pos && al.end <= best.end)) {
+				best = al
+			}
+		}
+		if best != nil {
+			l.Key = best.key
+			l.Pos = best.pos
+			l.CopyOf = best.owner
 		}
 	}
 	// disambiguate duplicate keys by ordinal in source order
@@ -873,11 +899,26 @@ func (tr *Trans) bindLoops() {
 		if l.Key == "" {
 			continue
 		}
+		if l.CopyOf != nil {
+			continue
+		}
 		count[l.Key]++
 		if count[l.Key] > 1 {
 			l.Key = fmt.Sprintf("%s#%d", l.Key, count[l.Key])
 		}
 	}
+	for _, l := range byHead {
+		if l.CopyOf != nil {
+			l.Key = l.CopyOf.Key
+		}
+	}
+}
+
+func ownerFn(o any) *ssa.Function {
+	if f, ok := o.(*Frame); ok && f != nil {
+		return f.fn
+	}
+	return nil
 }
 
 func minPos(l *ILLoop) int {
